@@ -423,10 +423,92 @@ impl KM {
     }
 }
 
+// ---------------- the offsets abstraction (same definitions as unit swt) and its link to the row data ---------------
+/// strictly increasing sort values and row ids; runs start at row 0 and lie inside the table
+pub open spec fn offsets_ok(o: Seq<(Value, RowId)>, n_rows: nat) -> bool {
+    &&& forall|i: int, j: int| #![trigger o[i], o[j]] 0 <= i < j < o.len() ==> o[i].0.ix() < o[j].0.ix() && o[i].1.ix() < o[j].1.ix()
+    &&& (o.len() > 0 ==> o[0].1.ix() == 0)
+    &&& forall|i: int| 0 <= i < o.len() ==> (#[trigger] o[i]).1.ix() < n_rows
+    &&& (o.len() == 0 ==> n_rows == 0)
+}
+/// index of the run containing row r (-1 if none)
+pub open spec fn run_idx(o: Seq<(Value, RowId)>, r: int) -> int
+    decreases o.len()
+{
+    if o.len() == 0 { -1 } else if o.last().1.ix() <= r { o.len() - 1 } else { run_idx(o.drop_last(), r) }
+}
+/// the sort value (timestamp) of row r under the offsets abstraction
+pub open spec fn sort_val(o: Seq<(Value, RowId)>, r: int) -> nat { o[run_idx(o, r)].0.ix() }
+/// the offsets vector describes the rows: what unit swt's fast_subset computes from `offsets` IS the value stored in
+/// the sort column of every live row (a stale row has only its column 0 overwritten, so it is excluded)
+pub open spec fn tracks(rows: Seq<Seq<Value>>, o: Seq<(Value, RowId)>, sb: nat) -> bool {
+    offsets_ok(o, rows.len()) && forall|r: int| 0 <= r < rows.len() && !stale(#[trigger] rows[r]) ==> rows[r][sb as int].ix() == sort_val(o, r)
+}
+/// the merge function keeps the incoming row's sort value (unit merge: the rewritten row carries the incoming timestamp)
+pub open spec fn merge_keeps_sort(sb: nat) -> bool {
+    forall|a: Seq<Value>, b: Seq<Value>| #![trigger mo(a, b)] mch(a, b) ==> mo(a, b)[sb as int] == b[sb as int]
+}
+pub proof fn lemma_run_idx_push(o: Seq<(Value, RowId)>, p: (Value, RowId), r: int)
+    ensures
+        r < p.1.ix() ==> run_idx(o.push(p), r) == run_idx(o, r),
+        p.1.ix() <= r ==> run_idx(o.push(p), r) == o.len(),
+{
+    assert(o.push(p).drop_last() =~= o);
+}
+/// appending a row whose sort value is >= the largest keeps `tracks`, with or without a new run
+pub proof fn lemma_tracks_append(rows: Seq<Seq<Value>>, o: Seq<(Value, RowId)>, sb: nat, row: Seq<Value>, o2: Seq<(Value, RowId)>)
+    requires
+        tracks(rows, o, sb), rows.len() <= u32::MAX,
+        o.len() == 0 || row[sb as int].ix() >= o.last().0.ix(),
+        o2 == (if o.len() == 0 || row[sb as int].ix() > o.last().0.ix() { o.push((row[sb as int], RowId { rep: rows.len() as u32 })) } else { o }),
+    ensures tracks(rows.push(row), o2, sb),
+{
+    let rows2 = rows.push(row);
+    let n = rows.len() as int;
+    let p = (row[sb as int], RowId { rep: rows.len() as u32 });
+    assert(p.1.ix() == n);
+    if o.len() == 0 || row[sb as int].ix() > o.last().0.ix() {
+        assert forall|i: int, j: int| #![trigger o2[i], o2[j]] 0 <= i < j < o2.len() implies o2[i].0.ix() < o2[j].0.ix() && o2[i].1.ix() < o2[j].1.ix() by {
+            if j < o.len() { assert(o2[i] == o[i] && o2[j] == o[j]); }
+            else {
+                assert(o2[i] == o[i]);
+                assert(o[i].1.ix() < n);
+                if i < o.len() - 1 { assert(o[i].0.ix() < o[o.len() - 1].0.ix()); }
+            }
+        }
+        assert forall|r: int| 0 <= r < rows2.len() && !stale(#[trigger] rows2[r]) implies rows2[r][sb as int].ix() == sort_val(o2, r) by {
+            lemma_run_idx_push(o, p, r);
+            if r < n { assert(rows2[r] == rows[r]); assert(o2[run_idx(o, r)] == o[run_idx(o, r)]) by { lemma_run_idx_range(o, r); } }
+        }
+        assert(offsets_ok(o2, rows2.len())) by { if o.len() > 0 { assert(o2[0] == o[0]); } }
+    } else {
+        assert forall|r: int| 0 <= r < rows2.len() && !stale(#[trigger] rows2[r]) implies rows2[r][sb as int].ix() == sort_val(o2, r) by {
+            if r < n { assert(rows2[r] == rows[r]); } else { assert(o.last().1.ix() <= r); }
+        }
+    }
+}
+pub proof fn lemma_run_idx_range(o: Seq<(Value, RowId)>, r: int)
+    ensures -1 <= run_idx(o, r) < o.len(), (o.len() > 0 && o[0].1.ix() <= r) ==> 0 <= run_idx(o, r)
+    decreases o.len()
+{
+    if o.len() > 0 && !(o.last().1.ix() <= r) {
+        lemma_run_idx_range(o.drop_last(), r);
+        if o.len() > 1 { assert(o.drop_last()[0] == o[0]); }
+    }
+}
+/// marking a row stale keeps `tracks`
+pub proof fn lemma_tracks_stale(rows: Seq<Seq<Value>>, rows2: Seq<Seq<Value>>, o: Seq<(Value, RowId)>, sb: nat, i: int)
+    requires tracks(rows, o, sb), rows2.len() == rows.len(), 0 <= i < rows.len(), stale(rows2[i]),
+        forall|j: int| 0 <= j < rows.len() && j != i ==> #[trigger] rows2[j] == rows[j],
+    ensures tracks(rows2, o, sb),
+{
+}
+
 impl SortedWritesTable {
     pub open spec fn km(&self) -> KM { KM { rows: self.data@, idx: self.hash@, n_keys: self.n_keys as nat } }
     pub open spec fn wf_shape(&self) -> bool {
         km_shape(self.data@, self.n_keys as nat) && (self.sort_by is Some ==> self.sort_by->Some_0.ix() < table_arity()) && self.data.counted()
+        && (self.sort_by is Some ==> tracks(self.data@, self.offsets@, self.sort_by->Some_0.ix()))
     }
     pub open spec fn wf_entries(&self) -> bool { km_entries(self.data@, self.hash@, self.n_keys as nat) }
     pub open spec fn wf_distinct(&self) -> bool { km_distinct(self.data@, self.hash@, self.n_keys as nat) }
@@ -456,7 +538,7 @@ pub open spec fn step_merge(n: nat, a: KM, q: Seq<Value>, b: KM) -> bool {
     exists|id: RowId| #[trigger] a.idx.contains_key(id) && keyof(a.rows[id.ix() as int], n) == keyof(q, n) && mch(a.rows[id.ix() as int], q)
         && a.rows.len() <= u32::MAX && b.rows.len() == a.rows.len() + 1
         && b.rows[a.rows.len() as int] == mo(a.rows[id.ix() as int], q)
-        && stale(b.rows[id.ix() as int])
+        && stale(b.rows[id.ix() as int]) && b.rows[id.ix() as int].len() == a.rows[id.ix() as int].len()
         && (forall|j: int| 0 <= j < a.rows.len() && j != id.ix() ==> #[trigger] b.rows[j] == a.rows[j])
         && b.idx =~= a.idx.remove(id).insert(RowId { rep: a.rows.len() as u32 }, a.idx[id])
 }
@@ -466,7 +548,7 @@ pub open spec fn has_key(n: nat, a: KM, q: Seq<Value>) -> bool {
 pub open spec fn step_new(n: nat, a: KM, q: Seq<Value>, b: KM) -> bool {
     (forall|id: RowId| #[trigger] a.idx.contains_key(id) ==> keyof(a.rows[id.ix() as int], n) != keyof(q, n))
     && a.rows.len() <= u32::MAX && b.rows =~= a.rows.push(q)
-    && exists|h: u64| b.idx =~= #[trigger] a.idx.insert(RowId { rep: a.rows.len() as u32 }, h)
+    && b.idx =~= a.idx.insert(RowId { rep: a.rows.len() as u32 }, hcs(keyof(q, n)))
 }
 
 pub proof fn lemma_applied(n: nat, a: KM, q: Seq<Value>, b: KM)
@@ -500,7 +582,7 @@ pub proof fn lemma_applied(n: nat, a: KM, q: Seq<Value>, b: KM)
         let id = choose|id: RowId| #[trigger] a.idx.contains_key(id) && keyof(a.rows[id.ix() as int], n) == keyof(q, n) && mch(a.rows[id.ix() as int], q)
             && b.rows.len() == a.rows.len() + 1
             && b.rows[a.rows.len() as int] == mo(a.rows[id.ix() as int], q)
-            && stale(b.rows[id.ix() as int])
+            && stale(b.rows[id.ix() as int]) && b.rows[id.ix() as int].len() == a.rows[id.ix() as int].len()
             && (forall|j: int| 0 <= j < a.rows.len() && j != id.ix() ==> #[trigger] b.rows[j] == a.rows[j])
             && b.idx =~= a.idx.remove(id).insert(RowId { rep: a.rows.len() as u32 }, a.idx[id]);
         let cur0 = a.rows[id.ix() as int];
@@ -541,6 +623,83 @@ pub proof fn lemma_applied(n: nat, a: KM, q: Seq<Value>, b: KM)
     }
 }
 
+/// one step keeps the keyed-map invariant (the three step relations are what the insert code does to rows and index)
+pub proof fn lemma_step_wf(n: nat, a: KM, q: Seq<Value>, b: KM)
+    requires
+        a.wf(), n == a.n_keys, b.n_keys == a.n_keys, merge_keeps_key(n), q.len() == table_arity(), !stale(q),
+        b.rows.len() <= u32::MAX + 1,
+        step_same(n, a, q, b) || step_merge(n, a, q, b) || step_new(n, a, q, b),
+    ensures b.wf(),
+{
+    let len0 = a.rows.len() as int;
+    let newid = RowId { rep: len0 as u32 };
+    if step_same(n, a, q, b) {
+        assert(b.rows == a.rows && b.idx == a.idx);
+    } else if step_merge(n, a, q, b) {
+        let id = choose|id: RowId| #[trigger] a.idx.contains_key(id) && keyof(a.rows[id.ix() as int], n) == keyof(q, n) && mch(a.rows[id.ix() as int], q)
+            && a.rows.len() <= u32::MAX && b.rows.len() == a.rows.len() + 1
+            && b.rows[a.rows.len() as int] == mo(a.rows[id.ix() as int], q)
+            && stale(b.rows[id.ix() as int]) && b.rows[id.ix() as int].len() == a.rows[id.ix() as int].len()
+            && (forall|j: int| 0 <= j < a.rows.len() && j != id.ix() ==> #[trigger] b.rows[j] == a.rows[j])
+            && b.idx =~= a.idx.remove(id).insert(RowId { rep: a.rows.len() as u32 }, a.idx[id]);
+        assert(newid.ix() == len0);
+        let cur = a.rows[id.ix() as int];
+        assert(mo(cur, q).len() == table_arity() && keyof(mo(cur, q), n) == keyof(q, n) && !stale(mo(cur, q)));
+        assert(b.wf_shape()) by {
+            assert forall|i: int| 0 <= i < b.rows.len() implies (#[trigger] b.rows[i]).len() == table_arity() by {
+                if i < len0 && i != id.ix() { assert(b.rows[i] == a.rows[i]); }
+            }
+        }
+        assert(b.wf_entries()) by {
+            assert forall|c: RowId| #[trigger] b.idx.contains_key(c) implies c.ix() < b.rows.len() && !stale(b.rows[c.ix() as int])
+                    && b.idx[c] == hcs(keyof(b.rows[c.ix() as int], n)) by {
+                if c != newid { assert(a.idx.contains_key(c) && c != id); assert(b.rows[c.ix() as int] == a.rows[c.ix() as int]); }
+            }
+        }
+        assert(b.wf_distinct()) by {
+            assert forall|x: RowId, y: RowId| #![trigger b.idx.contains_key(x), b.idx.contains_key(y)]
+                    b.idx.contains_key(x) && b.idx.contains_key(y) && x != y
+                    implies keyof(b.rows[x.ix() as int], n) != keyof(b.rows[y.ix() as int], n) by {
+                if x != newid { assert(a.idx.contains_key(x) && x != id); assert(b.rows[x.ix() as int] == a.rows[x.ix() as int]); }
+                if y != newid { assert(a.idx.contains_key(y) && y != id); assert(b.rows[y.ix() as int] == a.rows[y.ix() as int]); }
+            }
+        }
+        assert(b.wf_indexed()) by {
+            assert forall|i: int| 0 <= i < b.rows.len() && !stale(#[trigger] b.rows[i]) implies b.idx.contains_key(RowId { rep: i as u32 }) by {
+                if i < len0 { assert(i != id.ix()); assert(b.rows[i] == a.rows[i]); assert(a.idx.contains_key(RowId { rep: i as u32 })); assert(RowId { rep: i as u32 } != id); }
+                else { assert(RowId { rep: i as u32 } == newid); }
+            }
+        }
+    } else {
+        assert(newid.ix() == len0);
+        assert(b.wf_shape()) by {
+            assert forall|i: int| 0 <= i < b.rows.len() implies (#[trigger] b.rows[i]).len() == table_arity() by {
+                if i < len0 { assert(b.rows[i] == a.rows[i]); }
+            }
+        }
+        assert(b.wf_entries()) by {
+            assert forall|c: RowId| #[trigger] b.idx.contains_key(c) implies c.ix() < b.rows.len() && !stale(b.rows[c.ix() as int])
+                    && b.idx[c] == hcs(keyof(b.rows[c.ix() as int], n)) by {
+                if c != newid { assert(a.idx.contains_key(c)); assert(b.rows[c.ix() as int] == a.rows[c.ix() as int]); }
+            }
+        }
+        assert(b.wf_distinct()) by {
+            assert forall|x: RowId, y: RowId| #![trigger b.idx.contains_key(x), b.idx.contains_key(y)]
+                    b.idx.contains_key(x) && b.idx.contains_key(y) && x != y
+                    implies keyof(b.rows[x.ix() as int], n) != keyof(b.rows[y.ix() as int], n) by {
+                if x != newid { assert(a.idx.contains_key(x)); assert(b.rows[x.ix() as int] == a.rows[x.ix() as int]); }
+                if y != newid { assert(a.idx.contains_key(y)); assert(b.rows[y.ix() as int] == a.rows[y.ix() as int]); }
+            }
+        }
+        assert(b.wf_indexed()) by {
+            assert forall|i: int| 0 <= i < b.rows.len() && !stale(#[trigger] b.rows[i]) implies b.idx.contains_key(RowId { rep: i as u32 }) by {
+                if i < len0 { assert(b.rows[i] == a.rows[i]); assert(a.idx.contains_key(RowId { rep: i as u32 })); }
+                else { assert(RowId { rep: i as u32 } == newid); }
+            }
+        }
+    }
+}
+
 /// trigger-only marker for the witness sequences
 pub open spec fn wit(ts: Seq<KM>, qs: Seq<Seq<Value>>) -> bool { true }
 
@@ -577,7 +736,7 @@ pub proof fn lemma_chain_push(n: nat, first: KM, t0: KM, ts: Seq<KM>, qs: Seq<Se
 //@ at attr
     #[verifier::exec_allows_no_decreases_clause]
 //@ at sig
-        requires old(self).wf(), merge_keeps_key(old(self).n_keys as nat),
+        requires old(self).wf(), merge_keeps_key(old(self).n_keys as nat), keeps_sort(*old(self)),
         ensures
             final(self).wf(),
             final(self).n_keys == old(self).n_keys,
@@ -604,8 +763,6 @@ pub proof fn lemma_chain_push(n: nat, first: KM, t0: KM, ts: Seq<KM>, qs: Seq<Se
 //@ at closure 4 spec
                             requires row.ix() < self.data@.len()
                             ensures r == (!stale(self.data@[row.ix() as int]) && keyof(self.data@[row.ix() as int], n_keys as nat) =~= key@)
-//@ at before-loop 0
-        #[verifier::loop_isolation(false)]
 //@ at loop 0 spec
             invariant
                 self.wf_shape(),
@@ -613,11 +770,9 @@ pub proof fn lemma_chain_push(n: nat, first: KM, t0: KM, ts: Seq<KM>, qs: Seq<Se
                     self.wf_distinct(),
                     self.wf_indexed(),
                     chain(n_keys as nat, old(self).km(), self.km(), ts, qs),
-                    merge_keeps_key(n_keys as nat), n_keys == self.n_keys, scratch@.len() == 0,
+                    merge_keeps_key(n_keys as nat), keeps_sort(*old(self)), n_keys == self.n_keys, scratch@.len() == 0,
                     self.n_keys == old(self).n_keys, self.sort_by == old(self).sort_by,
                     self.n_columns == old(self).n_columns, self.generation == old(self).generation, rows_extend(old(self).data@, self.data@),
-//@ at before-loop 1
-                #[verifier::loop_isolation(false)]
 //@ at loop 1 spec
                     invariant
                 self.wf_shape(),
@@ -625,11 +780,9 @@ pub proof fn lemma_chain_push(n: nat, first: KM, t0: KM, ts: Seq<KM>, qs: Seq<Se
                     self.wf_distinct(),
                     self.wf_indexed(),
                     chain(n_keys as nat, old(self).km(), self.km(), ts, qs),
-                    merge_keeps_key(n_keys as nat), n_keys == self.n_keys, scratch@.len() == 0,
+                    self.sort_by == Some(sort_by), merge_keeps_key(n_keys as nat), keeps_sort(*old(self)), n_keys == self.n_keys, scratch@.len() == 0,
                     self.n_keys == old(self).n_keys, self.sort_by == old(self).sort_by,
                     self.n_columns == old(self).n_columns, self.generation == old(self).generation, rows_extend(old(self).data@, self.data@),
-//@ at before-loop 2
-                    #[verifier::loop_isolation(false)]
 //@ at loop 2 spec
                         invariant
                             forall|k: int| 0 <= k < __it2.snapshot@.remaining().len() ==> (#[trigger] __it2.snapshot@.remaining()[k])@.len() == table_arity() && !stale(__it2.snapshot@.remaining()[k]@),
@@ -638,13 +791,30 @@ pub proof fn lemma_chain_push(n: nat, first: KM, t0: KM, ts: Seq<KM>, qs: Seq<Se
                     self.wf_distinct(),
                     self.wf_indexed(),
                     chain(n_keys as nat, old(self).km(), self.km(), ts, qs),
-                    merge_keeps_key(n_keys as nat), n_keys == self.n_keys, scratch@.len() == 0,
+                    self.sort_by == Some(sort_by), merge_keeps_key(n_keys as nat), keeps_sort(*old(self)), n_keys == self.n_keys, scratch@.len() == 0,
                     self.n_keys == old(self).n_keys, self.sort_by == old(self).sort_by,
                     self.n_columns == old(self).n_columns, self.generation == old(self).generation, rows_extend(old(self).data@, self.data@),
 //@ at loop 2 body-start
                         let ghost t0 = self.km();
+                        let ghost o0 = self.offsets@;
 //@ at loop 2 body-end
                         proof {
+                            // the offsets vector still describes the rows
+                            let sb = sort_by.ix();
+                            assert(self.sort_by == Some(sort_by));
+                            if self.data@.len() != t0.rows.len() {
+                                let newrow = self.data@[t0.rows.len() as int];
+                                let rows1 = t0.rows.push(newrow);
+                                assert(newrow[sb as int] == query@[sb as int]);
+                                lemma_tracks_append(t0.rows, o0, sb, newrow, self.offsets@);
+                                if has_key(n_keys as nat, t0, query@) {
+                                    let id = choose|id: RowId| #[trigger] t0.idx.contains_key(id) && stale(self.data@[id.ix() as int]) && self.data@.len() == t0.rows.len() + 1
+                                        && (forall|j: int| 0 <= j < t0.rows.len() && j != id.ix() ==> #[trigger] self.data@[j] == t0.rows[j]);
+                                    lemma_tracks_stale(rows1, self.data@, self.offsets@, sb, id.ix() as int);
+                                } else {
+                                    assert(self.data@ =~= rows1);
+                                }
+                            }
                             assert(t0.wf());
                             if self.km().rows.len() == t0.rows.len() { assert(step_same(n_keys as nat, t0, query@, self.km())); }
                             else if has_key(n_keys as nat, t0, query@) { assert(step_merge(n_keys as nat, t0, query@, self.km())); }
@@ -654,13 +824,12 @@ pub proof fn lemma_chain_push(n: nat, first: KM, t0: KM, ts: Seq<KM>, qs: Seq<Se
                                 assert(self.km().idx =~= t0.idx.insert(RowId { rep: t0.rows.len() as u32 }, hcs(keyof(query@, n_keys as nat))));
                                 assert(step_new(n_keys as nat, t0, query@, self.km()));
                             }
+                            lemma_step_wf(n_keys as nat, t0, query@, self.km());
                             lemma_applied(n_keys as nat, t0, query@, self.km());
                             lemma_chain_push(n_keys as nat, old(self).km(), t0, ts, qs, query@, self.km());
                             ts = ts.push(self.km());
                             qs = qs.push(query@);
                         }
-//@ at before-loop 3
-                #[verifier::loop_isolation(false)]
 //@ at loop 3 spec
                     invariant
                 self.wf_shape(),
@@ -668,11 +837,9 @@ pub proof fn lemma_chain_push(n: nat, first: KM, t0: KM, ts: Seq<KM>, qs: Seq<Se
                     self.wf_distinct(),
                     self.wf_indexed(),
                     chain(n_keys as nat, old(self).km(), self.km(), ts, qs),
-                    merge_keeps_key(n_keys as nat), n_keys == self.n_keys, scratch@.len() == 0,
+                    self.sort_by is None, merge_keeps_key(n_keys as nat), keeps_sort(*old(self)), n_keys == self.n_keys, scratch@.len() == 0,
                     self.n_keys == old(self).n_keys, self.sort_by == old(self).sort_by,
                     self.n_columns == old(self).n_columns, self.generation == old(self).generation, rows_extend(old(self).data@, self.data@),
-//@ at before-loop 4
-                    #[verifier::loop_isolation(false)]
 //@ at loop 4 spec
                         invariant
                             forall|k: int| 0 <= k < __it4.snapshot@.remaining().len() ==> (#[trigger] __it4.snapshot@.remaining()[k])@.len() == table_arity() && !stale(__it4.snapshot@.remaining()[k]@),
@@ -681,7 +848,7 @@ pub proof fn lemma_chain_push(n: nat, first: KM, t0: KM, ts: Seq<KM>, qs: Seq<Se
                     self.wf_distinct(),
                     self.wf_indexed(),
                     chain(n_keys as nat, old(self).km(), self.km(), ts, qs),
-                    merge_keeps_key(n_keys as nat), n_keys == self.n_keys, scratch@.len() == 0,
+                    self.sort_by is None, merge_keeps_key(n_keys as nat), keeps_sort(*old(self)), n_keys == self.n_keys, scratch@.len() == 0,
                     self.n_keys == old(self).n_keys, self.sort_by == old(self).sort_by,
                     self.n_columns == old(self).n_columns, self.generation == old(self).generation, rows_extend(old(self).data@, self.data@),
 //@ at loop 4 body-start
@@ -697,6 +864,7 @@ pub proof fn lemma_chain_push(n: nat, first: KM, t0: KM, ts: Seq<KM>, qs: Seq<Se
                                 assert(self.km().idx =~= t0.idx.insert(RowId { rep: t0.rows.len() as u32 }, hcs(keyof(query@, n_keys as nat))));
                                 assert(step_new(n_keys as nat, t0, query@, self.km()));
                             }
+                            lemma_step_wf(n_keys as nat, t0, query@, self.km());
                             lemma_applied(n_keys as nat, t0, query@, self.km());
                             lemma_chain_push(n_keys as nat, old(self).km(), t0, ts, qs, query@, self.km());
                             ts = ts.push(self.km());
@@ -713,7 +881,7 @@ pub proof fn lemma_chain_push(n: nat, first: KM, t0: KM, ts: Seq<KM>, qs: Seq<Se
 //@ ret r
 //@ rewrite R-CLOSPAT &(Value,RowId) Value
 //@ at sig
-        requires old(self).wf(), merge_keeps_key(old(self).n_keys as nat),
+        requires old(self).wf(), merge_keeps_key(old(self).n_keys as nat), keeps_sort(*old(self)),
         ensures
             final(self).wf(), same_config(*old(self), *final(self)), final(self).generation == old(self).generation,
             rows_extend(old(self).data@, final(self).data@),
@@ -766,7 +934,7 @@ impl SortedWritesTable {
     /// A-db: parallel_insert is ASSUMED to meet serial_insert's contract (F2 shows it does not; known finding)
     #[verifier::external_body]
     pub fn parallel_insert<C>(&mut self, exec_state: &ExecutionState, checker: C) -> (r: bool)
-        requires old(self).wf(), merge_keeps_key(old(self).n_keys as nat),
+        requires old(self).wf(), merge_keeps_key(old(self).n_keys as nat), keeps_sort(*old(self)),
         ensures
             final(self).wf(), same_config(*old(self), *final(self)), rows_extend(old(self).data@, final(self).data@), final(self).generation == old(self).generation,
             exists|ts: Seq<KM>, qs: Seq<Seq<Value>>| #![trigger wit(ts, qs)] wit(ts, qs) && chain(old(self).n_keys as nat, old(self).km(), final(self).km(), ts, qs),
@@ -779,6 +947,7 @@ impl SortedWritesTable {
         ensures
             km_shape(final(rows)@, n_keys as nat), km_entries(final(rows)@, final(hash)@, n_keys as nat), km_distinct(final(rows)@, final(hash)@, n_keys as nat), km_indexed(final(rows)@, final(hash)@),
             final(rows).counted(), final(rows).stale_rows == 0,
+            sort_by is Some ==> tracks(final(rows)@, final(offsets)@, sort_by->Some_0.ix()),
             forall|r: Seq<Value>| #![trigger (KM { rows: final(rows)@, idx: final(hash)@, n_keys: n_keys as nat }).live(r)]
                 (KM { rows: final(rows)@, idx: final(hash)@, n_keys: n_keys as nat }).live(r) <==> (KM { rows: old(rows)@, idx: old(hash)@, n_keys: n_keys as nat }).live(r),
     { unimplemented!() }
@@ -790,6 +959,7 @@ impl SortedWritesTable {
     { unimplemented!() }
 }
 pub open spec fn vmax(a: int, b: int) -> int { if a >= b { a } else { b } }
+pub open spec fn keeps_sort(t: SortedWritesTable) -> bool { t.sort_by is Some ==> merge_keeps_sort(t.sort_by->Some_0.ix()) }
 pub open spec fn same_config(a: SortedWritesTable, b: SortedWritesTable) -> bool {
     a.n_keys == b.n_keys && a.n_columns == b.n_columns && a.sort_by == b.sort_by
 }
@@ -807,7 +977,7 @@ pub open spec fn version_of(t: SortedWritesTable) -> (nat, nat) { (t.generation.
 //@ fn merge
 //@ ret r
 //@ at sig
-        requires old(self).wf(), merge_keeps_key(old(self).n_keys as nat), old(self).generation.ix() < u64::MAX,
+        requires old(self).wf(), merge_keeps_key(old(self).n_keys as nat), keeps_sort(*old(self)), old(self).generation.ix() < u64::MAX,
         ensures
             final(self).wf(), same_config(*old(self), *final(self)),
             // removals first, then every staged row through the merge function, then (maybe) compaction
@@ -1029,6 +1199,7 @@ impl StagedOutputs {
                 assert(self.km().idx =~= t0.idx.insert(RowId { rep: t0.rows.len() as u32 }, hcs(keyof(row@, n))));
                 assert(step_new(n, t0, row@, self.km()));
             }
+            lemma_step_wf(n, t0, row@, self.km());
             lemma_applied(n, t0, row@, self.km());
             // n_stale counts the stale rows
             if self.km().rows.len() != t0.rows.len() {
